@@ -36,6 +36,9 @@ SCRIPTS = {
     "hello-eof": {"deploys": [{}, {"hello": "eof"}]},
     "mismatch": {"deploys": [{}, {"schema": "mismatch"}]},
     "nocancel-hang": {"schema": "nocancel", "exec": {"outcome": "hang"}},
+    # the connection stops taking writes once the execution has begun (signals can no longer be delivered)
+    "deaf-after-start": {"deploys": [{}, {"write_err_after_start": True}], "exec": {"outcome": "hang", "on_cancel": "error"}},
+    "slow-deploy": {"deploys": [{}, {"delay_ms": 25}]},
 }
 
 
@@ -150,6 +153,11 @@ def run(check):
         for n in range(0, L + 1):
             for seq in itertools.product(ENUM_ALPHABET, repeat=n):
                 add(sn, list(seq))
+    # a step that is executing on a connection which no longer takes writes: repeated stop requests and closes
+    for seq in (["D", "E1", "S", "Z", "X", "Z", "X", "Z", "C"], ["D", "E1", "S", "Z", "X", "C"], ["D", "E1", "S", "Z", "C", "F"], ["D", "E1", "S", "Z", "F"],
+                ["D", "E1", "S", "Z", "X", "X0", "F"], ["D", "E1", "S", "Z", "X", "Q", "Z", "Q", "C"], ["D", "E1", "S", "Z", "X", "Z", "Z", "Z", "Z", "F"]):
+        for sn in ("deaf-after-start", "hang-obey", "hang-ignore", "nocancel-hang"):
+            add(sn, seq)
     for i in range(check.pick(600, 8000)):
         rng = random.Random(derive_seed(check.seed, "c12-long", i))
         sn = rng.choice(sorted(SCRIPTS))
@@ -169,14 +177,14 @@ def run(check):
         points = [p for p in rn.points if p.startswith("pl:")]
         for i in range(check.pick(150, 1500)):
             rng = random.Random(derive_seed(check.seed, "c12-pt", i))
-            sn = rng.choice(["success", "hang-obey", "exec-gated", "deploy-gated", "crash", "hang-ignore"])
+            sn = rng.choice(["success", "hang-obey", "exec-gated", "deploy-gated", "crash", "hang-ignore", "deaf-after-start", "slow-deploy"])
             pt = rng.choice(points) if points else None
             seq = [rng.choice(["D", "E1", "S", "Z", "G", "X"]) for _ in range(rng.randrange(2, 6))]
             plan = {"sites": [{"point": pt, "hit": rng.choice([1, 1, 2, 3]), "action": rng.choice(["close", "force_close"])}]} if pt else None
             add(sn, seq, overlapped=True, plan=plan)
         # the step goroutine held for a while at one schedule point (e.g. inside a notification, or between receiving the plugin's
         # result and leaving the running stage) while the plugin finishes; a stop request / close then arrives in that window
-        combos = [(pt, sn, tail) for pt in points for sn in ("success", "error-output", "hang-obey") for tail in ("X", "C", "F", "X0")]
+        combos = [(pt, sn, tail) for pt in points for sn in ("success", "error-output", "hang-obey", "deaf-after-start") for tail in ("X", "C", "F", "X0")]
         random.Random(derive_seed(check.seed, "c12-hold")).shuffle(combos)
         for (pt, sn, tail) in combos[:check.pick(300, len(combos))]:
             for hit in (1, 2):
